@@ -111,6 +111,12 @@ pub fn add_stats(sh: &mut Shard, st: &Stats) {
     sh.add("lifecycle_err_expected", st.lifecycle_err);
     sh.add("deletes_into_closed_blobs", st.del_in_closed);
     sh.add("filter_checks", st.filter_checks);
+    sh.add("disk_used_exact_checks", st.disk_exact);
+    sh.add("disk_used_bounded_checks", st.disk_bounded);
+    sh.add("offloaded_bytes", st.offloaded_bytes);
+    for a in st.abstract_states.iter() {
+        sh.set_insert("abstract_states", *a as u64);
+    }
 }
 
 /// Outcome handling shared by the model checks: `owned` lists the mismatch classes that are
